@@ -14,6 +14,8 @@ sys.path.insert(0, os.path.dirname(os.path.abspath(__file__)))
 import vlib
 from vlib import Report, ToolTrouble, log
 import gen_writer
+import gen_reader
+import random
 
 
 # ------------------------------------------------------------------ helpers
@@ -481,7 +483,190 @@ def c13(tier):
                       assumptions=["bases are unencrypted, as the property states"])
 
 
-CHECKS = {"C13": c13, "C14": c14, "C01": c01, "C02": c02, "C12": c12, "C17": c17}
+def run_reader_scenarios(rep, wd, scenarios, label, neg_control=True):
+    progs = os.path.join(wd, label + "-scenarios.ndjson")
+    trace = os.path.join(wd, label + "-trace.ndjson")
+    vlib.write_ndjson(progs, scenarios)
+    vlib.run_harness(["rexec", progs, trace])
+    res = vlib.validate_segments("Trace_Open.tla", "Trace_Open.cfg", trace, wd, tag=label)
+    by_sc = {s["sc"]: {"sc": s["sc"], "hex_len": len(s["hex"]) // 2, "hex": s["hex"] if len(s["hex"]) < 400000 else "(omitted)",
+                       "pwq": s.get("pwq")} for s in scenarios}
+    rep.add_tv(res, by_sc, label)
+    rep.evaluations += len(scenarios)
+    for s in scenarios:
+        rep.distinct.add(vlib.digest(s["hex"][:200000]))
+    counts = rep.notes.setdefault("events_by_call", {})
+    evs = vlib.read_ndjson(trace)
+    for e in evs:
+        counts[e.get("ev", "?")] = counts.get(e.get("ev", "?"), 0) + 1
+    rep.notes["spec_counters"] = dict(vlib.LAST_STATS)
+    if not rep.samples:
+        ex = next((e for e in evs if e.get("ev") == "REntry"), None)
+        rep.samples.append({"scenario": scenarios[0]["sc"], "bytes": len(scenarios[0]["hex"]) // 2,
+                            "first_entry_event": {k: ex[k] for k in list(ex)[:14]} if ex else None})
+    rejected = {r["sc"] for r in res["rejections"]}
+    if neg_control:
+        for s in scenarios:
+            if s["sc"] in rejected:
+                continue
+            seg = [e for e in evs if e.get("sc") == s["sc"]]
+            ent = [i for i, e in enumerate(seg) if e.get("ev") == "REntry" and e.get("r") == "ok"]
+            if not ent:
+                continue
+
+            def mutate(es, k=ent[-1]):
+                es[k]["hdr"] = es[k]["hdr"] + 1
+                return "REntry[%d].hdr shifted in accepted scenario %s" % (k, s["sc"])
+
+            nc = vlib.corrupt_and_expect_reject("Trace_Open.tla", "Trace_Open.cfg", seg, wd, mutate, tag=label + "-neg")
+            if nc:
+                rep.neg_controls.append(nc)
+                if not nc["rejected"]:
+                    raise ToolTrouble("negative control did not fire: " + nc["mutation"])
+            break
+    return res
+
+
+def tail_cases(wd, quick):
+    """LocatePre cases enumerated by TLC (MC_Open with Emit)"""
+    cfg = os.path.join(wd, "MC_Open_emit.cfg")
+    with open(os.path.join(vlib.SPEC, "MC_Open.cfg")) as f:
+        txt = f.read().replace("Emit = FALSE", "Emit = TRUE") + "INVARIANT EmitCase\n"
+    with open(cfg, "w") as f:
+        f.write(txt)
+    r = vlib.tlc_run("MC_Open.tla", cfg, wd, workers=1, timeout=600, tag="emit")
+    cases = []
+    seen = set()
+    for m in re.finditer(r'<<"CASE", "(.*)">>', r["out"]):
+        s = m.group(1)
+        if s in seen:
+            continue
+        seen.add(s)
+        cases.append(json.loads(json.loads('"' + s + '"')))
+    if not cases:
+        raise ToolTrouble("MC_Open emitted no cases")
+    return cases
+
+
+def c03(tier):
+    rep = Report("C03", tier)
+    wd = vlib.workdir("C03", tier)
+    vlib.build_harness()
+    r = vlib.tlc_mc("MC_Open.tla", "MC_Open.cfg", wd, timeout=600)
+    rep.add_mc(r, "MC_Open.cfg")
+    if r["error"]:
+        rep.spec_violation(r, "MC_Open.cfg")
+    sd = vlib.seed()
+    rnd = random.Random(sd * 9176 + 3)
+    # spec -> impl: every tail shape of the model (those realisable below 4 GiB), materialised
+    cases = tail_cases(wd, tier == "quick")
+    seen = set()
+    scs = []
+    for T in cases:
+        key = (T["p"], T["n"], T["c"], T["g"], T["z"], T["sent"])      # b, s are 32-bit classes: model-level only
+        if key in seen:
+            continue
+        seen.add(key)
+        if T["n"] >= 2:
+            continue        # entry counts at the 16-bit limit: realised under C08 (aggregated events)
+        scs.append(gen_reader.from_tail_case("t%04d" % len(scs), T, 5, 2, rnd))
+    rep.notes["tail_cases_model"] = len(cases)
+    rep.notes["tail_cases_materialised"] = len(scs)
+    run_reader_scenarios(rep, wd, scs, "tails")
+    # independent producer with every per-entry freedom; CPython as a second producer
+    n = 250 if tier == "quick" else 6000
+    scs = []
+    for i in range(n):
+        s, v = gen_reader.scenario("p%05d" % i, gen_reader.rand_archive(rnd))
+        scs.append(s)
+    for i in range(n // 8):
+        kind = ["plain", "dd", "z64", "fcomment"][i % 4]
+        b = cpython_base(rnd, kind)
+        import zipfile, io
+        zf = zipfile.ZipFile(io.BytesIO(b))
+        exp = [{"len": zi.file_size, "crc": "%08x" % zi.CRC} for zi in zf.infolist()]
+        scs.append({"sc": "py%05d-%s" % (i, kind), "hex": b.hex(), "expect": exp})
+    run_reader_scenarios(rep, wd, scs, "producer")
+    return rep.finish("model_checking",
+                      "MC_Open: LocateFaithful over all abstract archive tails (prefix x sizes x count x comment x garbage x ZIP64 "
+                      "records x sentinels) at scaled limits; every realisable tail shape and seeded random archives of an independent "
+                      "producer (data-descriptor styles, forced ZIP64 subsets/order, differing local/central extras, file comments, "
+                      "made-by systems, attribute words, CP437/UTF-8/invalid-UTF-8 names, duplicates, central order != local order, gaps, "
+                      "prefix, trailing garbage, unsupported methods) and CPython zipfile archives are opened by the real reader; "
+                      "the archive view, every accessor, name lookup, absent/out-of-range lookups and decoded content are validated "
+                      "against ZipOpen!View of the independently lexed layout",
+                      assumptions=["payloads/comments avoid embedded record signatures", "32-bit-limit tail classes are model-level here (C08 realises them)"])
+
+
+def c19(tier):
+    import refzip
+    rep = Report("C19", tier)
+    wd = vlib.workdir("C19", tier)
+    vlib.build_harness()
+    r = vlib.tlc_mc("MC_Encoding.tla", "MC_Encoding.cfg", wd, timeout=600)
+    rep.add_mc(r, "MC_Encoding.cfg")
+    if r["error"]:
+        rep.spec_violation(r, "MC_Encoding.cfg")
+    sd = vlib.seed()
+    rnd = random.Random(sd * 7907 + 19)
+    # exhaustive: every byte value x flag x position x field
+    cases = []
+    for flag in (False, True):
+        for pos in ("first", "middle", "last"):
+            for bv in range(256):
+                x = bytes([bv])
+                s = {"first": x + b"tail", "middle": b"he" + x + b"ad", "last": b"head" + x}[pos]
+                cases.append((flag, s))
+    # multi-byte sequences: valid UTF-8 without the flag (must still be CP437), with the flag, truncated
+    # and overlong forms, surrogates, and random byte strings
+    samples = ["café".encode(), "日本語".encode(), "\U0001F600".encode(), b"caf\xc3", b"\xe2\x82", b"\xc0\xaf", b"\xed\xa0\x80",
+               b"\xf4\x90\x80\x80", b"\xef\xbf\xbd", b"\xc3\xa9\xc3\xa9", "ünï/cödé.txt".encode(), b"\x80\x81\xfe\xff", b""]
+    for s in samples:
+        cases += [(False, s), (True, s)]
+    nrand = 300 if tier == "quick" else 6000
+    for _ in range(nrand):
+        n = rnd.choice([1, 2, 3, 5, 17, 64, 300])
+        if rnd.random() < 0.5:
+            s = bytes(rnd.randrange(256) for _ in range(n))
+        else:
+            s = "".join(chr(rnd.choice([rnd.randrange(32, 127), rnd.randrange(0xA0, 0x800), rnd.randrange(0x800, 0xD800),
+                                        rnd.randrange(0x10000, 0x10FFFF)])) for _ in range(n)).encode()[:400]
+        cases.append((rnd.random() < 0.5, s))
+    scs = []
+    per = 48
+    for i in range(0, len(cases), per):
+        ents = []
+        for k, (flag, s) in enumerate(cases[i:i + per]):
+            # names stay distinct through a numeric prefix directory that is pure ASCII
+            ents.append({"name": b"%d/" % k + s, "utf8": flag, "method": 0, "data": b"x", "fcomment": s})
+        b, v = refzip.build({"entries": ents, "comment": b"c19"})
+        scs.append({"sc": "d%05d" % i, "hex": b.hex(), "expect": gen_reader.expect_of(v), "decode": True, "max_entries": 200})
+    rep.notes["decode_cases"] = len(cases)
+    run_reader_scenarios(rep, wd, scs, "decode")
+    # writer side: any Rust string is stored as the same UTF-8 bytes, flagged iff non-ASCII, and read back equal
+    g = gen_writer.Gen(sd * 31 + 19, tier)
+    ws = []
+    for i in range(40 if tier == "quick" else 800):
+        ops = [{"op": "New"}]
+        for _ in range(6):
+            nm = "".join(chr(rnd.choice([rnd.randrange(1, 127), rnd.randrange(0xA0, 0x800), rnd.randrange(0x800, 0xD800),
+                                         rnd.randrange(0xE000, 0xFFFE), rnd.randrange(0x10000, 0x10FFFF)])) for _ in range(rnd.randint(1, 20)))
+            ops.append({"op": "StartFile", "name": nm, "method": 0})
+            ops.append({"op": "Write", "data": "z"})
+        ops.append({"op": "Finish"})
+        ws.append({"sc": "wn%05d" % i, "ops": ops})
+    run_writer_programs(rep, wd, ws, "writer-names", neg_control=False)
+    return rep.finish("model_checking",
+                      "MC_Encoding: laws of the decoding operators over all 1- and 2-byte strings; binding: every byte value x flag x "
+                      "position {first, middle, last} x field {name, file comment}, multi-byte valid/invalid UTF-8 with and without the "
+                      "flag, random byte and Unicode strings, in archives of the independent builder; the trace spec computes the "
+                      "required string itself (Cp437Table from CPython's codec; UTF-8 decoder written in TLA+; std's lossy result only "
+                      "for invalid UTF-8) and compares code point by code point; raw-name accessor must return the stored bytes; writer "
+                      "side: random Rust strings stored/flagged/read back (Trace_Writer)",
+                      assumptions=["Cp437Table is reference data (CPython cp437 codec)", "strings in TLA+-decided cases are <= 512 bytes"])
+
+
+CHECKS = {"C19": c19, "C03": c03, "C13": c13, "C14": c14, "C01": c01, "C02": c02, "C12": c12, "C17": c17}
 
 
 def setup():
